@@ -1,7 +1,7 @@
-(* C02 — write-through persistence: the byte image always reopens to the same state.  Statements are printed by Check below and compared with C02.expected.  PARTIAL: proved are the write-through of the FAT, of the directory (insert / remove / metadata updates / new directory sectors) and of the MiniFAT cells (every cached cell or entry equals its bytes on disk after every mutation), that the on-disk FAT and directory read back as open does return the cache (the directory followed by the blank slots of its last sector), the entry / header codec round trips in both modes, and that strict acceptance gives the same state as permissive.  Also proved (proofs/ReopenProofs.v): the REOPEN ROUND TRIP - for every state that is Coherent (header bytes = header computed from the cache, FAT / directory / MiniFAT cache = disk, tails FREE, tables valid; no DIFAT sectors, i.e. at most 109 FAT sectors) open in BOTH modes on the concatenated image succeeds and returns exactly the cached tables (directory followed by the blank slots of its last sector, free lists rebuilt in index order); Coherent holds for the fresh file of either version and, by a sound boolean checker, for reachable example states (storages, mini and regular streams, removals, second FAT sector, second directory sector, extended MiniFAT); the header field writes of allocation keep the header coherent.  NOT proved: that Coherent is preserved by every API operation (its layers are: FAT, directory, MiniFAT write-through above), and the DIFAT-sector regime; both are checked at every operation boundary of generated histories: the implementation's bytes, taken without flush, are reopened in both modes by the crate and by the model and all dumps compared. *)
+(* C02 — write-through persistence: the byte image always reopens to the same state.  Statements are printed by Check below and compared with C02.expected.  PARTIAL: proved are the write-through of the FAT, of the directory (insert / remove / metadata updates / new directory sectors) and of the MiniFAT cells (every cached cell or entry equals its bytes on disk after every mutation), that the on-disk FAT and directory read back as open does return the cache (the directory followed by the blank slots of its last sector), the entry / header codec round trips in both modes, and that strict acceptance gives the same state as permissive.  Also proved (proofs/ReopenProofs.v): the REOPEN ROUND TRIP - for every state that is Coherent (header bytes = header computed from the cache, FAT / directory / MiniFAT cache = disk, tails FREE, tables valid; no DIFAT sectors, i.e. at most 109 FAT sectors) open in BOTH modes on the concatenated image succeeds and returns exactly the cached tables (directory followed by the blank slots of its last sector, free lists rebuilt in index order); Coherent holds for the fresh file of either version and, by a sound boolean checker, for reachable example states (storages, mini and regular streams, removals, second FAT sector, second directory sector, extended MiniFAT); the header field writes of allocation keep the header coherent.  Also proved (proofs/PersistProofs.v): PERSISTENCE OVER HISTORIES of the namespace - a stronger invariant PInv (Coherent + directory and MiniFAT chains disjoint + every entry well-formed and black + the table represents a tree) holds of the fresh file of either version, is preserved by create_storage, create_new_stream, remove_storage, remove_stream (of empty streams), the four metadata setters (unchanged state on their refusals), including the growth of the directory chain by a sector with a new FAT sector, and implies the round trip; hence for EVERY history of those calls and the queries (up to 6000 calls, each Ok or without effect) the bytes alone reopen in both modes to the cached state, at every prefix.  NOT proved: preservation by operations that move stream data (write, set_len, removal of non-empty streams, overwrite), and the DIFAT-sector regime; both are checked at every operation boundary of generated histories: the implementation's bytes, taken without flush, are reopened in both modes by the crate and by the model and all dumps compared. *)
 From Cfb.model Require Import Base Names DirEnt State Alloc Dir Mini Store Handle Open Cfb.
 From Cfb.gen Require Import Consts.
-From Cfb.proofs Require Import CoherenceProofs CodecProofs StrictProofs DirCoherence ReopenProofs.
+From Cfb.proofs Require Import CoherenceProofs CodecProofs StrictProofs DirCoherence ReopenProofs ReadonlyTotal PersistProofs.
 Set Printing Width 110.
 
 (* every FAT cell update is on disk when the call returns *)
@@ -129,3 +129,57 @@ Theorem C02_new_fat_sector_updates_the_header : ltac:(let t := type of append_fa
 Proof. exact append_fat_sector_header. Qed.
 Check C02_new_fat_sector_updates_the_header.
 Print Assumptions C02_new_fat_sector_updates_the_header.
+
+(* every state satisfying the history invariant reopens, in both modes, to its cached tables *)
+Theorem C02_history_invariant_implies_round_trip : ltac:(let t := type of PInv_reopens in exact t).
+Proof. exact PInv_reopens. Qed.
+Check C02_history_invariant_implies_round_trip.
+Print Assumptions C02_history_invariant_implies_round_trip.
+
+(* strict directory validation succeeds on every all-black table that represents an abstract tree *)
+Theorem C02_tables_that_represent_a_tree_validate : ltac:(let t := type of tree_validates in exact t).
+Proof. exact tree_validates. Qed.
+Check C02_tables_that_represent_a_tree_validate.
+Print Assumptions C02_tables_that_represent_a_tree_validate.
+
+(* V3 and V4 *)
+Theorem C02_fresh_file_satisfies_the_invariant : ltac:(let t := type of create_state_pinv in exact t).
+Proof. exact create_state_pinv. Qed.
+Check C02_fresh_file_satisfies_the_invariant.
+Print Assumptions C02_fresh_file_satisfies_the_invariant.
+
+(* including directory-chain growth and a new FAT sector *)
+Theorem C02_create_storage_preserves_the_invariant : ltac:(let t := type of create_storage_preserves in exact t).
+Proof. exact create_storage_preserves. Qed.
+Check C02_create_storage_preserves_the_invariant.
+Print Assumptions C02_create_storage_preserves_the_invariant.
+
+(* removal by relinking keeps cache = disk and the table a tree *)
+Theorem C02_remove_storage_preserves_the_invariant : ltac:(let t := type of remove_storage_preserves in exact t).
+Proof. exact remove_storage_preserves. Qed.
+Check C02_remove_storage_preserves_the_invariant.
+Print Assumptions C02_remove_storage_preserves_the_invariant.
+
+(* same for set_storage_clsid, set_created_time, set_modified_time (set_*_preserves, set_*_err in proofs/PersistProofs.v) *)
+Theorem C02_metadata_updates_preserve_the_invariant : ltac:(let t := type of set_state_preserves in exact t).
+Proof. exact set_state_preserves. Qed.
+Check C02_metadata_updates_preserve_the_invariant.
+Print Assumptions C02_metadata_updates_preserve_the_invariant.
+
+(* for EVERY history of the covered calls from a fresh file: the bytes alone reopen, in both modes, to the cached state *)
+Theorem C02_persistence_over_histories : ltac:(let t := type of persist_history in exact t).
+Proof. exact persist_history. Qed.
+Check C02_persistence_over_histories.
+Print Assumptions C02_persistence_over_histories.
+
+(* the same at every operation boundary of the history (a crash or drop between any two calls) *)
+Theorem C02_persistence_at_every_prefix : ltac:(let t := type of persist_every_prefix in exact t).
+Proof. exact persist_every_prefix. Qed.
+Check C02_persistence_at_every_prefix.
+Print Assumptions C02_persistence_at_every_prefix.
+
+(* non-vacuity: a 17-call history (storages, an empty stream, metadata, a refused removal, slot reuse, directory growth) on V3 and V4 *)
+Theorem C02_persistence_example : ltac:(let t := type of Example.hist_persists in exact t).
+Proof. exact Example.hist_persists. Qed.
+Check C02_persistence_example.
+Print Assumptions C02_persistence_example.
